@@ -16,6 +16,7 @@ ENGINES = [
     {"name": "lean", "path": "lean/", "kind_free_text": "Lean 4 library NeoFS: Model/* executable models, Props/Cxx.lean property theorems, Main.lean line-protocol driver (neofs_model)"},
     {"name": "int256", "path": "harness/eng_int256.go", "serves_properties": ["C05"], "kind_free_text": "differential driver of internal/signed256 and the int-string readers of pkg/core/object against Model/Int256.lean, with a math/big oracle"},
     {"name": "range", "path": "harness/eng_range.go", "serves_properties": ["C11"], "kind_free_text": "differential driver of PayloadRange.Resolve and of range reads through FSTree/shard/engine against Gen/Arith.lean + Model/Range.lean"},
+    {"name": "grace", "path": "harness/eng_grace.go", "serves_properties": ["C47"], "kind_free_text": "runs the real shard new-epoch handler and engine start-up cleanup against Model/Grace.lean over the property's full table"},
     {"name": "ec", "path": "harness/eng_ec.go", "serves_properties": ["C21", "C22"], "kind_free_text": "differential driver of internal/ec against Model/EC.lean"},
 ]
 
@@ -75,3 +76,18 @@ prop("C11",
           "GetRangeStream / ReadPayloadRange / ReadObjectParts; non-trivial = satisfiable proper sub-slice, distinct by request",
      trusted=["bbolt, kernel file system and zstd under the storage layers are exercised, not modelled"],
      assumptions=["payloads below 2^63 bytes (larger ranges are rejected by checkTooBigRange, which is modelled)"])
+
+prop("C47",
+     theorems=["NeoFS.Grace.grace_iff", "NeoFS.Grace.discard_iff", "NeoFS.Grace.transient_never_discards",
+               "NeoFS.Grace.future_mark_never_discards", "NeoFS.Grace.startup_iff"],
+     engines=[dict(name="grace", quick=1, thorough=1)],
+     claim="The grace-period condition of Shard.setEpochEventHandler is micro-translated from the source on every run; Lean proves for every uint64 "
+           "epoch and int64 unpaid-since that the new-epoch handler discards iff payments are on, nothing failed, 0 <= unpaidSince <= epoch and "
+           "epoch-unpaidSince >= 3 (so transient errors, disabled payments and marks ahead of the epoch never discard), and that start-up cleanup "
+           "discards iff the source answers ContainerNotFound. The decision skeleton is tied by running the property's whole table through the real "
+           "shard handler and real engine start-up.",
+     note="Trusted: Lean kernel, micro-translator, hand model Model/Grace.lean of the handler's check order (tied by correspondence). The policer's "
+          "container-missing path is covered under C26's engine, cmd/neofs-node (package main) is not reachable.",
+     rule="exhaustive table epoch 0..10 x unpaidSince -1..12 x payments on/off x payment-check error, container-list error every third mark, 35 boundary "
+          "pairs near 2^32/2^63/2^64, 3 container-source answers through engine start-up; non-trivial = payments on, no error, mark set; distinct by op",
+     assumptions=["the handler is driven synchronously through a verif export; asynchronous event delivery is what makes marks ahead of the epoch reachable"])
